@@ -412,7 +412,7 @@ def _snapshot(tree):
     return tkey(proj_tree(tree)), h
 
 
-def walk(data, data_ids, steps, rs, dist, oracle=None, tol=1e-8, outliers_on=True, pool_max=6):
+def walk(data, data_ids, steps, rs, dist, oracle=None, tol=1e-8, outliers_on=True, pool_max=6, on_state=None):
     """One in-place random walk through the grammar on real objects (no restoring copies between steps), with
     a pool of sibling trees that received the same grafted subtree (as the prune-regraft sampler builds them).
 
@@ -471,6 +471,9 @@ def walk(data, data_ids, steps, rs, dist, oracle=None, tol=1e-8, outliers_on=Tru
                 msg = gridoracle.compare_tree(t, oracle, grid[1])
             if msg:
                 issues.append(("stale", dict(ctx, obj=nm2, error=msg)))
+        if on_state is not None:
+            for msg in on_state(cur, sub, dst, act) or ():
+                issues.append(("callback", dict(ctx, error=msg)))
         for t, snap in pool:
             try:
                 now = _snapshot(t)
